@@ -111,7 +111,7 @@ func main() {
 	if args.Replay != "" {
 		for _, l := range xvlib.ReadLines(args.Replay) {
 			a := ex.exec(l)
-			out.Emit(l, a)
+			out.Emit(l, cmpAns(l, a))
 			out.Case(l, true)
 		}
 		return
